@@ -286,3 +286,98 @@ func VerifC07ConcurrentClose() {
 	verifrt.Assert("c07.concurrent-close.delivered-exactly-once", sumNamed(&rec.vReporter, "x") == v)
 	verifrt.Reach("c07.concurrent-close.end")
 }
+
+// VerifC07ConcurrentRequest: two application goroutines request the same, not yet existing
+// subscope at the same time; one records and closes it at once, the other records on whatever
+// it was handed.  Everything recorded before the passes that follow is delivered exactly once
+// (no scope that still holds undelivered values may be overwritten in the registry), on every
+// schedule with at most 2 preemptions.  In the variant with one concurrent report pass the other
+// goroutine's increment may legitimately be dropped (it can land after Close and retirement).
+func c07ConcurrentRequest(passes int) {
+	rec := &lockedReporter{}
+	root := newRootScope(ScopeOptions{Reporter: rec, OmitCardinalityMetrics: true, registryShardCount: 1}, 0)
+	v1, v2 := verifrt.Int64("inc"), verifrt.Int64("inc")
+	verifrt.Assume(verifrt.And(v1 != 0, v2 != 0))
+	var wg sync.WaitGroup
+	verifrt.Explore(2)
+	wg.Add(2)
+	go func() {
+		defer wg.Done()
+		s := root.SubScope("a")
+		s.Counter("x").Inc(v1)
+		s.(io.Closer).Close()
+	}()
+	go func() {
+		defer wg.Done()
+		s := root.SubScope("a")
+		s.Counter("x").Inc(v2)
+	}()
+	for p := 0; p < passes; p++ {
+		wg.Add(1)
+		go func() {
+			defer wg.Done()
+			root.reportRegistry()
+		}()
+	}
+	wg.Wait()
+	verifrt.StopExplore()
+	root.reportRegistry()
+	root.reportRegistry()
+	got := sumNamed(&rec.vReporter, "a.x")
+	if passes == 0 {
+		verifrt.Assert("c07.concurrent-request.everything-recorded-is-delivered-exactly-once", got == v1+v2)
+	} else {
+		// with a pass running, the second goroutine's increment may land on the shared scope
+		// after the first one closed it and the pass retired it: then it is dropped by design.
+		// What was recorded before the Close is delivered exactly once in any case.
+		verifrt.Assert("c07.concurrent-request.recorded-before-close-delivered-exactly-once",
+			verifrt.Or(got == v1+v2, got == v1))
+	}
+	verifrt.Reach("c07.concurrent-request.end")
+}
+
+func VerifC07ConcurrentRequest()     { c07ConcurrentRequest(0) }
+func VerifC07ConcurrentRequestPass() { c07ConcurrentRequest(1) }
+
+// VerifC07ClosedParent: scopes derived from a closed scope are inert - also when the very same
+// derivation (same name, or same tags) was made before the parent was closed and its result is
+// still alive in the registry.  Sequential; SubScope and Tagged derivations.
+func VerifC07ClosedParent() {
+	rec := &vReporter{}
+	root := newRootScope(ScopeOptions{Reporter: rec, OmitCardinalityMetrics: true, registryShardCount: 1}, 0)
+	v1, v2 := verifrt.Int64("inc"), verifrt.Int64("inc")
+	verifrt.Assume(verifrt.And(v1 != 0, v2 != 0))
+	tagged := verifrt.Choose("derivation", 2) == 1
+	p := root.SubScope("p")
+	derive := func() Scope {
+		if tagged {
+			return p.Tagged(map[string]string{"k": "v"})
+		}
+		return p.SubScope("c")
+	}
+	name := "p.c.y"
+	if tagged {
+		name = "p.y"
+	}
+	c := derive()
+	c.Counter("y").Inc(v1)
+	p.(io.Closer).Close()
+	if verifrt.Choose("pass-between", 2) == 1 {
+		root.reportRegistry()
+	}
+	c2 := derive()
+	c2.Counter("y").Inc(v2)
+	c2.Gauge("g").Update(1)
+	c2.Timer("t").Record(time.Second)
+	root.reportRegistry()
+	root.reportRegistry()
+	verifrt.Assert("c07.closed-parent.derived-after-close-is-inert", sumNamed(rec, name) == v1)
+	n := 0
+	for _, cl := range rec.calls {
+		if cl.kind == "gauge" || cl.kind == "timer" {
+			n++
+		}
+	}
+	verifrt.Assert("c07.closed-parent.no-gauge-or-timer-from-an-inert-scope", n == 0)
+	verifrt.Reach("c07.closed-parent.end")
+}
